@@ -30,6 +30,7 @@ def bounds(tier):
     return {"perm": f"partition: values 0..4, 1..5 items (all permutations), k=2..4; packing B=6 values 0..6 1..{4 if q else 5} items; covering B=6 values 1..9 1..{4 if q else 5} items",
             "scale": "partition: values 0..5, 1..5 items, k=1..4; packing: all sequences 1..4 items over 0..6 (B=6); covering: multisets 1..5 items over 1..9 (B=6)",
             "zeros": f"values 1..6, 1..{5 if q else 6} items, k=2..4, +1/+2 zeros",
+            "agree-separating": "the 1091 objective-separating instances of tools/gen_separating.py (see C02), all exact algorithms, dp in both output families",
             "agree-fine": "offset letters {b/2+7, b+1, b+5, b+6, 2b+1, 2b+8}, b in {1e5, 1e6, 2**24, 1e9}, 4..5(6) items, k=2..3; 7 items over fibonacci 1..21" + ("" if q else " and 8 items over 1..34") + ", k=3: cg/ckk/snp/rnp/dp (both output families) must agree",
             "agree": ("11 items over {1,3,5} and over {2,3,5}, k=2..4, cg/ckk/snp/rnp/dp(k<=3)/ilp; planted+1 (12..13 items... up to 4 parts per pattern): k=3 patterns, without ilp" if q else "11..13 items over {1,2,3,5}, k=2..5 (snp/rnp k<=4, and k<=3 above 11 items); planted+1: k=3,4 patterns, with ilp")}
 
@@ -67,6 +68,10 @@ def tasks(tier):
     if not q:
         for ch in scopes.chunk_multisets((1, 2, 3, 5, 8, 13, 21, 34), 8, 8, 12):
             ts.append(("agree-fine", ch, (3,)))
+    sep, _ = scopes.separating_instances()
+    for k in (3, 4):
+        for ch in spaces.chunked([it for it, kk, _ in sep if kk == k], 12):
+            ts.append(("agree-fine", ch, (k,)))
     for k in ((3,) if q else (3, 4)):
         gen = (tuple(sorted(it + (1,), reverse=True)) for it, _ in spaces.planted(12, (2, 3, 4, 5, 6, 7), k, maxparts=4))
         for ch in spaces.chunked(gen, 8):
